@@ -16,7 +16,7 @@ ID = "C19"
 LEVEL = "model_checking"
 MIN_OUTCOMES = 2
 MANIFEST = {
-    'text': 'Every project directory over the recognised files (5^5*8 quick, 7^5*8 thorough) is built (unrelated prior content includes [tool.*] tables in the dedicated TOML files, near-miss INI sections, colon-style INI keys, CRLF files) and the history init --dry; init; show; edit; show; init; init --dry is executed on the real CLI with every step checked: complete enumeration of the stated finite space, so the property holds for all of it, not for a sample.',
+    'text': 'Every project directory over the recognised files (5^5*8 quick, 7^5*8 thorough) is built (unrelated prior content includes [tool.*] tables in the dedicated TOML files, near-miss INI sections, colon-style INI keys, CRLF files) and the history (also as child processes under an ASCII locale with non-ASCII prior content) init --dry; init; show; edit; show; init; init --dry is executed on the real CLI with every step checked: complete enumeration of the stated finite space, so the property holds for all of it, not for a sample.',
     'note': 'clock pinned via bumpver.utils.now/version.TODAY; only top-level files; invalid existing sections not enumerated',
     'technique': 'explicit-state exploration: exhaustive enumeration of initial directory states x fixed operation history on the real CLI',
     'design_ref': 'DESIGN.md section 4, C19',
@@ -107,17 +107,74 @@ def all_cases(tier):
 
 def explore(tier, seed):
     cases = all_cases(tier)
-    return pool.run_chunks(run_chunk, pool.split(cases, pool.NPROC * 4))
+    return pool.run_chunks(run_chunk, pool.split(cases, pool.NPROC * 4) + [["@locale"]])
 
 
 def run_chunk(cases):
     st = Stats()
+    if cases and cases[0] == "@locale":
+        ascii_locale(st)
+        return st
     for case in cases:
         run_case(tuple(case), st)
     return st
 
 
+def ascii_locale(st):
+    """init / show / init as child processes under an ASCII locale (LC_ALL=C, UTF-8 mode off) in directories whose config-capable file
+    already holds UTF-8 text that is not ASCII (an author's name, a copyright sign)."""
+    import subprocess as sp
+    import sys
+
+    year = dt.datetime.now(dt.timezone.utc).year
+    env = dict(os.environ, LC_ALL="C", LANG="C", PYTHONUTF8="0", PYTHONCOERCECLOCALE="0",
+               PYTHONPATH=os.environ.get("BUMPVER_SRC", "/repo/src"), PYTHONDONTWRITEBYTECODE="1")
+
+    def run(*argv):
+        r = sp.run([sys.executable, "-m", "bumpver"] + list(argv), env=env, stdout=sp.PIPE, stderr=sp.PIPE)
+        return r.returncode, r.stdout.decode("utf-8", "replace"), r.stderr.decode("utf-8", "replace")
+
+    for fn in CFG_FILES + [None]:
+        d = pool.fresh_dir("c19loc")
+        os.chdir(d)
+        prior = None
+        if fn is not None:
+            comment = "# maintained by Zo\u00eb M\u00fcller \u00a9 2031\n"
+            prior = (comment + UNRELATED[fn]).encode("utf-8")
+            world.write_tree({fn: prior})
+        world.write_tree({"README.md": "# D\u00e9mo \u2713\n".encode("utf-8")})
+        target = fn or "bumpver.toml"
+        case = {"ascii_locale": True, "prior_file": fn}
+        rc1, out1, err1 = run("init")
+        after1 = world.read_tree(".")
+        rc2, out2, err2 = run("show", "--no-fetch")
+        rc3, out3, err3 = run("init")
+        after3 = world.read_tree(".")
+        st.evaluations += 3
+        st.transitions += 3
+        st.validated += 3
+        st.state("ascii-locale", fn)
+        st.nontriv("ascii-locale", fn)
+        st.observe((fn, rc1, rc2, out2, rc3, sorted(after3.items())))
+        problems = []
+        if rc1 != 0 or target not in after1 or (prior is not None and not after1[target].startswith(prior)):
+            problems.append(("init-failed-or-prior-content-not-kept", {"exit": rc1, "stderr": err1[-300:]}))
+        elif rc2 != 0 or f"Current Version: {year}.1001-alpha" not in out2:
+            problems.append(("show-after-init", {"exit": rc2, "stdout": out2, "stderr": err2[-300:]}))
+        if rc1 == 0 and (rc3 == 0 or after3 != after1):
+            problems.append(("second-init-accepted-or-wrote", {"exit": rc3, "changed": sorted(k for k in after3 if after3[k] != after1.get(k))}))
+        for sig, detail in problems:
+            st.outcomes["violation"] += 1
+            st.violation(f"C19:ascii-locale:{sig}", case, detail)
+        if not problems:
+            st.outcomes["ascii-locale:init-show-init-ok"] += 1
+    os.chdir("/")
+
+
 def replay(case, st):
+    if isinstance(case, dict) and case.get("ascii_locale"):
+        ascii_locale(st)
+        return
     run_case(tuple(case), st)
 
 
